@@ -20,6 +20,16 @@ for sid in ids:
     last = meta["verif_runs"][-1]["checks"]
     rows.append((sid, meta, last))
     print(sid, sorted(c for c, v in last.items() if v["exit"] != 0), flush=True)
+# the table always lists EVERY seeded change, from the latest run of each in which all checks were run
+rows = []
+for sid in sorted(d for d in os.listdir(os.path.join(VERIF, "seeded")) if os.path.exists(os.path.join(VERIF, "seeded", d, "meta.json"))):
+    meta = json.load(open(os.path.join(VERIF, "seeded", sid, "meta.json")))
+    if meta.get("status", "").startswith("obsolete"):
+        rows.append((sid, meta, None))
+        continue
+    full = [r for r in meta.get("verif_runs", []) if len(r.get("checks", {})) >= 15]
+    if full:
+        rows.append((sid, meta, full[-1]["checks"]))
 with open(os.path.join(VERIF, "seeded", "MATRIX.md"), "w") as f:
     f.write("# Which quick checks raise the alarm for which seeded change (seed 1; every check run against every change)\n\n")
     f.write("| change | property | kind | checks that exit 1 | own check |\n|---|---|---|---|---|\n")
